@@ -27,15 +27,19 @@ type c17Scn struct {
 	TxBuf   int `json:"txbuf"`   // 0 transport without TxBufferLen, 1 reports 0, 2 reports more than remains, 3 reports a draining queue
 	// Offset > 0: station B is a scripted CMS-style remote that accepts A's (single) proposal at this
 	// offset ("FS !n", or "FS An" if OffA) - the resumed-transfer path of the sender
-	Offset  int   `json:"offset,omitempty"`
-	OffA    bool  `json:"offset_answer_a,omitempty"`
-	Choices []int `json:"choices,omitempty"`
+	LongSubject bool  `json:"long_subject,omitempty"` // subjects of 110 characters: longer than the 80-byte title field of the transfer
+	Offset      int   `json:"offset,omitempty"`
+	OffA        bool  `json:"offset_answer_a,omitempty"`
+	Choices     []int `json:"choices,omitempty"`
 }
 
 var c17Latencies = []time.Duration{0, 100 * time.Millisecond, 300 * time.Millisecond}
 
 func (s c17Scn) describe() string {
 	d := fmt.Sprintf("msgs=%d/%d size=%d latency=%v txbuf=%d", s.MsgsA, s.MsgsB, s.Size, c17Latencies[s.Latency], s.TxBuf)
+	if s.LongSubject {
+		d += " long subjects"
+	}
 	if s.Offset > 0 {
 		d += fmt.Sprintf(" scripted remote accepting at offset %d (A-form: %v)", s.Offset, s.OffA)
 	}
@@ -123,6 +127,13 @@ func c17Body(size, i int) string {
 	}
 }
 
+func c17Subject(sc c17Scn, k int) string {
+	if !sc.LongSubject {
+		return ""
+	}
+	return fmt.Sprintf("a subject of one hundred and ten characters, which does not fit into the title field of a transfer %09d", k)
+}
+
 func lcgWords(n int, seed uint32) string {
 	const letters = "etaoin shrdlucmfwypvbgkqjxz ETAOIN.,"
 	b := make([]byte, n)
@@ -155,8 +166,10 @@ func (u c17Updater) UpdateStatus(s fbb.Status) {
 	switch {
 	case s.Sending != nil && s.Receiving == nil:
 		r.Dir, r.MID, r.CSize = "send", s.Sending.MID(), s.Sending.CompressedSize()
+		_ = s.Sending.Title() // a real updater shows what is being transferred
 	case s.Receiving != nil && s.Sending == nil:
 		r.Dir, r.MID, r.CSize = "recv", s.Receiving.MID(), s.Receiving.CompressedSize()
+		_ = s.Receiving.Title()
 	default:
 		r.Dir = "neither-or-both"
 	}
@@ -210,10 +223,10 @@ func c17Harness(sc c17Scn, o *c17Obs) func() {
 			o.boxes[i] = sess.NewBox(calls[i])
 		}
 		for k := 0; k < sc.MsgsA; k++ {
-			o.boxes[0].AddOut(sess.MsgSpec{MID: fmt.Sprintf("AMSG%08d", k), Body: c17Body(sc.Size, k)}.Build(calls[0]))
+			o.boxes[0].AddOut(sess.MsgSpec{MID: fmt.Sprintf("AMSG%08d", k), Body: c17Body(sc.Size, k), Subject: c17Subject(sc, k)}.Build(calls[0]))
 		}
 		for k := 0; k < sc.MsgsB; k++ {
-			o.boxes[1].AddOut(sess.MsgSpec{MID: fmt.Sprintf("BMSG%08d", k), Body: c17Body(sc.Size, k+7)}.Build(calls[1]))
+			o.boxes[1].AddOut(sess.MsgSpec{MID: fmt.Sprintf("BMSG%08d", k), Body: c17Body(sc.Size, k+7), Subject: c17Subject(sc, k+7)}.Build(calls[1]))
 		}
 		for i := 0; i < 2; i++ {
 			i := i
@@ -369,6 +382,12 @@ func C17(args []string) {
 					scns = append(scns, c17Scn{MsgsA: m[0], MsgsB: m[1], Size: size, Latency: lat, TxBuf: tx})
 				}
 			}
+		}
+	}
+	// subjects longer than the transfer's title field
+	for _, m := range [][2]int{{1, 0}, {2, 0}, {1, 1}} {
+		for _, lat := range []int{0, 1} {
+			scns = append(scns, c17Scn{MsgsA: m[0], MsgsB: m[1], Size: 1, Latency: lat, LongSubject: true})
 		}
 	}
 	// the sender's resumed-transfer path: a scripted remote accepts the proposal at an offset
